@@ -33,7 +33,7 @@ SOLVER_TUS = ["src/solver.cpp", "src/solver/state.cpp", "src/solver/osga.cpp", "
               "src/solver/universal.cpp", "src/solver/asga.cpp", "src/solver/pdsgm.cpp", "src/solver/gsample.cpp", "src/solver/rqb.cpp",
               "src/solver/fpba.cpp", "src/solver/csearch.cpp", "src/solver/penalty.cpp", "src/solver/augmented.cpp", "src/function.cpp",
               "src/solver/gd.cpp", "src/solver/cgd.cpp", "src/solver/lbfgs.cpp", "src/solver/quasi.cpp", "src/solver/bundle.cpp",
-              "src/solver/lsearch.cpp", "src/lsearchk.cpp", "src/lsearch0.cpp"]
+              "src/solver/lsearch.cpp", "src/lsearchk.cpp", "src/lsearch0.cpp", "src/lsearchk/cgdescent.cpp"]
 
 PROVIDERS = {"nano::solver_state_t": {"x": "x", "gx": "g", "fx": "f"}, "nano::bundle_t": {"x": "x", "gx": "g", "fx": "f"}}
 POINT_FIELDS = {"m_y": "x", "m_gy": "g", "m_fy": "f"}
@@ -1251,3 +1251,5 @@ def run(ctx):
     rule_returned_state(F, R, fns)
     rule_adopted_steps(F, R)
     rule_rqb_adoption(F, R)
+    from . import c07
+    c07.rule_cgdescent_bracket(F, R, rule="R-C02-7")
